@@ -21,11 +21,11 @@ type frame struct {
 }
 
 var (
-	reArgs      = regexp.MustCompile(`\([^()]*\)$`)
-	reInGo      = regexp.MustCompile(` in goroutine \d+$`)
-	reLoc       = regexp.MustCompile(`([^/\s]+\.go:\d+)`)
-	reDigits    = regexp.MustCompile(`\d+`)
-	reHex       = regexp.MustCompile(`0x[0-9a-f]+`)
+	reArgs   = regexp.MustCompile(`\([^()]*\)$`)
+	reInGo   = regexp.MustCompile(` in goroutine \d+$`)
+	reLoc    = regexp.MustCompile(`([^/\s]+\.go:\d+)`)
+	reDigits = regexp.MustCompile(`\d+`)
+	reHex    = regexp.MustCompile(`0x[0-9a-f]+`)
 )
 
 // ollamaFrames extracts the ollama frames (innermost first) of the first
